@@ -104,6 +104,70 @@ def error_sites(ctx):
     return sites
 
 
+# Handlers whose *whole rule* in the standard is a parse error: the cell of the insertion-mode table they implement begins with
+# "Parse error." (transcribed by hand from the tree-construction section; one line of reason where the cell is not obvious).
+UNCONDITIONAL_ERROR_HANDLERS = {
+    "Phase.processDoctype": "a DOCTYPE token in any mode after 'initial'",
+    "InitialPhase.processCharacters": "initial: anything else (no quirks exemption for text)", "InitialPhase.processStartTag": "initial: anything else",
+    "InitialPhase.processEndTag": "initial: anything else", "InitialPhase.processEOF": "initial: anything else",
+    "BeforeHeadPhase.endTagOther": "before head: any other end tag", "InHeadPhase.startTagHead": "in head: head start tag",
+    "InHeadPhase.endTagOther": "in head: any other end tag", "InHeadNoscriptPhase.processEOF": "in head noscript: anything else",
+    "InHeadNoscriptPhase.processCharacters": "in head noscript: anything else", "InHeadNoscriptPhase.startTagHeadNoscript": "head / noscript start tag",
+    "InHeadNoscriptPhase.startTagOther": "anything else", "InHeadNoscriptPhase.endTagBr": "anything else", "InHeadNoscriptPhase.endTagOther": "any other end tag",
+    "AfterHeadPhase.startTagFromHead": "after head: base, link, meta, ... start tag", "AfterHeadPhase.startTagHead": "head start tag",
+    "AfterHeadPhase.endTagOther": "any other end tag", "InBodyPhase.startTagBody": "in body: body start tag", "InBodyPhase.startTagFrameset": "frameset start tag",
+    "InBodyPhase.startTagImage": "image start tag", "InBodyPhase.startTagIsIndex": "isindex (revision current at the release)",
+    "InBodyPhase.startTagMisplaced": "caption, col, ... start tag", "InBodyPhase.endTagBr": "br end tag", "TextPhase.processEOF": "text: end-of-file",
+    "InTablePhase.startTagTable": "in table: table start tag", "InTablePhase.startTagForm": "form start tag", "InTablePhase.startTagOther": "anything else",
+    "InTablePhase.endTagIgnore": "body, caption, ... end tag", "InTablePhase.endTagOther": "anything else", "InCaptionPhase.endTagIgnore": "body, col, ... end tag",
+    "InColumnGroupPhase.endTagCol": "col end tag", "InTableBodyPhase.startTagTableCell": "th, td start tag", "InTableBodyPhase.endTagIgnore": "body, caption, ... end tag",
+    "InRowPhase.endTagIgnore": "body, caption, ... end tag", "InCellPhase.endTagIgnore": "body, caption, ... end tag",
+    "InSelectPhase.startTagSelect": "select start tag", "InSelectPhase.startTagInput": "input, keygen, textarea start tag", "InSelectPhase.startTagOther": "anything else",
+    "InSelectPhase.endTagOther": "anything else", "InSelectInTablePhase.startTagTable": "caption, table, ... start tag",
+    "InSelectInTablePhase.endTagTable": "caption, table, ... end tag", "AfterBodyPhase.processCharacters": "after body: anything else",
+    "AfterBodyPhase.startTagOther": "anything else", "AfterBodyPhase.endTagOther": "anything else", "InFramesetPhase.processCharacters": "in frameset: anything else",
+    "InFramesetPhase.startTagOther": "anything else", "InFramesetPhase.endTagOther": "anything else", "AfterFramesetPhase.processCharacters": "anything else",
+    "AfterFramesetPhase.startTagOther": "anything else", "AfterFramesetPhase.endTagOther": "anything else", "AfterAfterBodyPhase.processCharacters": "anything else",
+    "AfterAfterBodyPhase.startTagOther": "anything else", "AfterAfterBodyPhase.processEndTag": "anything else",
+    "AfterAfterFramesetPhase.processCharacters": "anything else", "AfterAfterFramesetPhase.startTagOther": "anything else",
+    "AfterAfterFramesetPhase.processEndTag": "anything else",
+}
+
+
+def unconditional_errors(ctx):
+    """R16.8: "conforming documents record no errors" has one clause visible in the shape of the code: a handler that records a
+    parse error on *every* call (a parseError statement at the top level of its body) must implement a cell of the standard's
+    insertion-mode tables whose rule is "Parse error." -- otherwise a token that the standard accepts silently (an omitted
+    `</caption>` implied by the next table element, say) makes every such document, conforming ones included, record an error
+    and strict mode reject it."""
+    r = ctx.r
+    r.rule("R16.8", "a tree-construction handler that always records an error implements a cell whose rule in the standard is a parse error", floor=50)
+    mod = ctx.repo.module("html5parser.py")
+    for f in mod.all_functions:
+        if f.cls is None or not f.cls.name.endswith("Phase"):
+            continue
+        for st in f.node.body:
+            if isinstance(st, ast.Expr) and isinstance(st.value, ast.Call) and norm(st.value.func) == "self.parser.parseError":
+                code = ce_code(ctx, st.value, mod)
+                r.check("R16.8", f.qual in UNCONDITIONAL_ERROR_HANDLERS, "always-an-error::%s" % f.qual, "html5parser.py:%d" % st.lineno,
+                        "%s records the parse error %s on every call, but the standard's rule for the tokens it handles is not an error in itself"
+                        "%s" % (f.qual, code, {
+                            "InCaptionPhase.startTagTableElement": " (in caption, a caption / col / colgroup / tbody / td / tfoot / th / thead / tr start tag closes the "
+                            "caption; it is an error only if no caption is in table scope or the current node is not the caption): the conforming "
+                            "`<table><caption>c<tbody><tr><td>d</table>` records an error and strict mode raises",
+                            "InCaptionPhase.endTagTable": " (in caption, `</table>` closes the caption silently): the conforming `<table><caption>c</table>` "
+                            "records an error and strict mode raises"}.get(f.qual, "")),
+                        {"handler": f.qual, "code": code}, detail={"handler": f.qual, "reason": UNCONDITIONAL_ERROR_HANDLERS.get(f.qual)})
+                break
+
+
+def ce_code(ctx, call, mod):
+    if not call.args:
+        return "XXX-undefined-error (no code given)"
+    v = ctx.ce.try_eval(call.args[0], mod)
+    return repr(v) if v is not None else norm(call.args[0])
+
+
 def run(ctx):
     r = ctx.r
     repo, ce = ctx.repo, ctx.ce
@@ -119,6 +183,7 @@ def run(ctx):
     r.rule("R16.2", "single funnel: append to parser.errors only in parseError, append precedes strict raise of ParseError; "
                     "mainLoop forwards ParseError tokens; tokenizer drains stream.errors", floor=5)
     r.rule("R16.3", "no except clause on the parse path can swallow ParseError around a call reaching parseError", floor=1)
+    unconditional_errors(ctx)
 
     # strict <=> non-strict across an encoding restart: the restart (except _ReparseException: reset(); mainLoop()) forgets
     # the errors of the abandoned pass; strict mode must then not have raised for them (or the restart must keep them)
@@ -353,6 +418,8 @@ def run(ctx):
 def mutants():
     from ..selftest import TextMutant as T, AstMutant as A
     return [
+        T("caption-implied-end-is-an-error", "html5parser.py", "    def endTagTable(self, token):\n        ignoreEndTag = self.ignoreEndTagCaption()", "    def endTagTable(self, token):\n        self.parser.parseError()\n        ignoreEndTag = self.ignoreEndTagCaption()", "R16.8"),
+        T("option-start-in-select-is-an-error", "html5parser.py", "    def startTagOption(self, token):\n        # We need to imply </option> if <option> is the current node.", "    def startTagOption(self, token):\n        self.parser.parseError(\"unexpected-start-tag\", {\"name\": \"option\"})\n        # We need to imply </option> if <option> is the current node.", "R16.8"),
         T("drop-E-key", "constants.py", '"eof-in-tag-name":', '"eof-in-tag-name-x":', "R16.1"),
         T("missing-var", "html5parser.py",
           'self.parser.parseError("unexpected-end-tag-before-html",\n                                   {"name": token["name"]})',
